@@ -177,11 +177,21 @@ class MboxMixin(object):
         mid = msg["mailbox"] if "mailbox" in msg else cm.opened_id
         if ctx["cls"] == AMBIGUOUS or mid is None:
             m = self.mb.get((cm.app, mid))
+            answered_closed = any(f.get("type") == "closed" for f in rest)
             if m is not None:
                 m.taint.add("ambiguous")
                 m.t_high = max(m.t_high, st.t)
+                if answered_closed or err == "crowded":
+                    # whatever the statement says about this command, it evidently reached the store
+                    m.touch(cm.side, st.t)
+                    if len(m.sides) > 2:
+                        m.taint.add("crowd")
+                if answered_closed:
+                    m.closed.add(cm.side)
+                    m.open_low.discard(cm.side)
+                    m.open_high.discard(cm.side)
             ctx["allowed"].append(lambda *a: True)
-            if any(f.get("type") == "closed" for f in rest):
+            if answered_closed:
                 cm.did_close = True
                 cm.holds = None
                 cm.sub = None
